@@ -337,12 +337,21 @@ impl VxTaskCounter {
 }
 pub struct VxPathBuf { _p: () }
 pub struct MDBShardFile { pub shard_hash: MerkleHash, pub path: VxPathBuf }
+/// `copy` is the handle of the file `src.export_with_expiration(..)` wrote: `src`'s file up to its footer, followed by `src`'s footer
+/// with ONLY the expiry re-stamped (proved of the wrapper in U-EXPORTWRAP: `restamped`).  It holds exactly `src`'s records; its
+/// content hash - hence `copy.shard_hash` - differs from `src.shard_hash` in general (the footer bytes changed).
+pub uninterp spec fn vx_cache_copy_of(copy: MDBShardFile, src: MDBShardFile) -> bool;
+/// the shard's records are in the store: the shard itself was accepted, or it is a re-stamped local copy of an accepted shard
+pub open spec fn vx_shard_backed_by_store(sf: MDBShardFile) -> bool {
+    vx_shard_in_store(sf.shard_hash) || exists|src: MDBShardFile| #[trigger] vx_cache_copy_of(sf, src) && vx_shard_in_store(src.shard_hash)
+}
 impl MDBShardFile {
-    /// writes a copy of the shard into `target_directory` (the local cache): from then on later sessions dedup against it
+    /// writes a copy of the shard into `target_directory` (the local cache): from then on later sessions dedup against it.
+    /// (corrected 2026-10-04: the clause used to read `n.shard_hash == self.shard_hash`, which is false - see U-EXPORTWRAP)
     #[verifier::external_body]
     pub fn export_with_expiration(&self, target_directory: &VxPath, shard_valid_for: Duration) -> (r: std::result::Result<Arc<MDBShardFile>, MDBShardError>)
         requires /*@C16,C01,C02*/ vx_shard_in_store(self.shard_hash),
-        ensures r matches Ok(n) ==> n.shard_hash == self.shard_hash,
+        ensures r matches Ok(n) ==> vx_cache_copy_of(*n, *self),
     { unimplemented!() }
 }
 pub struct Duration { _p: () }
@@ -407,7 +416,9 @@ impl ShardFileManager {
     /// makes the shards available for deduplication in this and (via the cache directory) later sessions
     #[verifier::external_body]
     pub fn register_shards(&self, new_shards: &[Arc<MDBShardFile>]) -> std::result::Result<(), MDBShardError>
-        requires /*@C16,C01,C02*/ forall|i: int| 0 <= i < new_shards@.len() ==> vx_shard_in_store((#[trigger] new_shards@[i]).shard_hash),
+        // "local registration of a shard follows its successful upload": what is registered is an accepted shard or the re-stamped
+        // local copy of one (the copy's own hash was never uploaded - it names a different byte string)
+        requires /*@C16,C01,C02*/ forall|i: int| 0 <= i < new_shards@.len() ==> vx_shard_backed_by_store(*#[trigger] new_shards@[i]),
     { unimplemented!() }
 }
 #[verifier::external_body]
